@@ -14,6 +14,17 @@ use std::sync::mpsc;
 use std::sync::{Arc, Mutex};
 use std::time::{Duration, Instant};
 
+/// a fresh holder, obtained in each of the ways the API offers, in turn (`new()` is what the global uses; `Default` is public too)
+fn fresh_holder() -> SingletonHolder<Val> {
+    static TURN: std::sync::atomic::AtomicU64 = std::sync::atomic::AtomicU64::new(0);
+    match TURN.fetch_add(1, Ordering::Relaxed) % 3 {
+        0 => SingletonHolder::new(),
+        1 => SingletonHolder::default(),
+        _ => Default::default(),
+    }
+}
+
+#[derive(Default)]
 pub struct Val {
     pub id: u64,
 }
@@ -185,7 +196,7 @@ pub fn replay(a: &Args) {
         let steps = b["steps"].as_array().unwrap();
         let nthreads = steps.iter().map(|s| s["t"].as_u64().unwrap()).max().unwrap_or(1);
         tr().ev(json!({"ev":"reset","threads":nthreads,"sched":true,"beh":nbeh,"behaviour":b.clone()}));
-        let holder: Arc<SingletonHolder<Val>> = Arc::new(SingletonHolder::new());
+        let holder: Arc<SingletonHolder<Val>> = Arc::new(fresh_holder());
         sched_enable(true);
         let ths: Vec<Th> = (1..=nthreads).map(|r| spawn_thread(r, holder.clone())).collect();
         let mut cur_op: Vec<String> = vec![String::new(); nthreads as usize + 1];
@@ -288,7 +299,7 @@ pub fn stress(a: &Args) {
     for run in 0..runs {
         let n = rng.random_range(2..=4u64);
         tr().ev(json!({"ev":"reset","threads":n,"sched":false,"run":run}));
-        let holder: Arc<SingletonHolder<Val>> = Arc::new(SingletonHolder::new());
+        let holder: Arc<SingletonHolder<Val>> = Arc::new(fresh_holder());
         let start = Arc::new(std::sync::Barrier::new(n as usize));
         let mut js = vec![];
         for role in 1..=n {
@@ -333,7 +344,7 @@ pub fn sched_random(a: &Args) {
     for run in 0..runs {
         let n = rng.random_range(2..=3u64);
         tr().ev(json!({"ev":"reset","threads":n,"sched":true,"run":run,"random_schedule":true}));
-        let holder: Arc<SingletonHolder<Val>> = Arc::new(SingletonHolder::new());
+        let holder: Arc<SingletonHolder<Val>> = Arc::new(fresh_holder());
         sched_enable(true);
         let done: Vec<Arc<AtomicBool>> = (0..n).map(|_| Arc::new(AtomicBool::new(false))).collect();
         let mut tids = vec![];
